@@ -1,6 +1,7 @@
 package main
 
 import (
+	"sync"
 	"fmt"
 	"go/constant"
 	"go/token"
@@ -30,12 +31,15 @@ type Obligation struct {
 	Quant   bool    `json:"quantified,omitempty"`
 	pc, f   Term
 	idx     int
+	blk     *ssa.BasicBlock // block of the function under verification in which it arises (nil: entry)
+	skipCheck bool          // cover.info not sampled in the quick tier
 	watch   []string // terms to evaluate in a model
 }
 
 type item struct {
 	line string
 	ob   *Obligation
+	blk  *ssa.BasicBlock // block of the function under verification during which the line was emitted (nil: entry)
 }
 
 // ---------------------------------------------------------------------------
@@ -148,6 +152,12 @@ type FuncVC struct {
 	useQuantSlices bool
 	lastCallbacks *callbacksSite
 	curBlock *ssa.BasicBlock
+	topBlock *ssa.BasicBlock // current block of the outermost frame (the function under verification)
+	reachTo  map[*ssa.BasicBlock]map[*ssa.BasicBlock]bool
+	reachMu  sync.Mutex
+	groups   map[int][]int // leader obligation index -> members checked jointly in the first pass
+	groupMu  sync.Mutex
+	lets     map[string]Term // entry-state definitions of the contract under verification
 	notes []string
 	counters map[string]int
 	dry bool
@@ -183,7 +193,7 @@ type callbacksSite struct {
 }
 
 func (vc *FuncVC) emit(format string, args ...interface{}) {
-	vc.items = append(vc.items, item{line: fmt.Sprintf(format, args...)})
+	vc.items = append(vc.items, item{line: fmt.Sprintf(format, args...), blk: vc.topBlock})
 }
 
 func (vc *FuncVC) declare(name, sort string) {
@@ -236,7 +246,8 @@ func (vc *FuncVC) oblige(kind, name, clause string, pos token.Pos, pc, f Term) *
 		ob.ID = fmt.Sprintf("%s~%d", base, n)
 	}
 	vc.obls = append(vc.obls, ob)
-	vc.items = append(vc.items, item{ob: ob})
+	ob.blk = vc.topBlock
+	vc.items = append(vc.items, item{ob: ob, blk: vc.topBlock})
 	return ob
 }
 
@@ -257,7 +268,8 @@ func (vc *FuncVC) cover(name string, pos token.Pos, pc Term) {
 	ob := &Obligation{ID: vc.prop + "/" + vc.key + "/cover:" + name, Prop: vc.prop, Func: vc.key, Kind: kind,
 		Clause: "reachable", Pos: vc.posStr(pos), Expect: "sat", pc: pc, f: tTrue}
 	vc.obls = append(vc.obls, ob)
-	vc.items = append(vc.items, item{ob: ob})
+	ob.blk = vc.topBlock
+	vc.items = append(vc.items, item{ob: ob, blk: vc.topBlock})
 }
 
 // ---------------------------------------------------------------------------
